@@ -390,6 +390,8 @@ func (r *runner) step(op Op) (e *expect, _ *h.Failure) {
 		if err != nil {
 			return e, h.Failf("start-failed", "StartWatchingSubChannel(%d) while the parent is watched: %v", op.C, err)
 		}
+		// a channel that is watched again has a new subscription and a new client stream
+		r.closed[op.C], r.delivered[op.C] = false, 0
 	case "pubp":
 		tx := fresh(r.u.tx(0, r.m.ch[0].newest, r.m.locked))
 		if fl := guarded("Publish", func() { err = r.pubs[0].Publish(ctx, tx) }); fl != nil {
@@ -807,6 +809,9 @@ func pickOp(m *model, raw rawOp, allowEnd bool) (op Op, ok bool) {
 		if m.watched(0) && m.ch[j].status == stNever {
 			cs = append(cs, cand{3, Op{K: "startsub", C: j}})
 		}
+		if m.watched(0) && m.ch[j].status == stStopped {
+			cs = append(cs, cand{2, Op{K: "startsub", C: j}})
+		}
 		if m.watched(j) {
 			cs = append(cs, cand{2, Op{K: "pubs", C: j}}, cand{1, Op{K: "stopsub", C: j}})
 		}
@@ -877,7 +882,11 @@ func pickOp(m *model, raw rawOp, allowEnd bool) (op Op, ok bool) {
 			op.C = 1 + raw.Ch%2
 		}
 	case "startsub":
-		op.V = uint64([]int{0, 0, 0, 1, 2}[raw.Aux%5])
+		if m.ch[op.C].status == stStopped {
+			op.V = m.ch[op.C].newest + uint64(raw.Aux%2)
+		} else {
+			op.V = uint64([]int{0, 0, 0, 1, 2}[raw.Aux%5])
+		}
 	}
 	return op, true
 }
